@@ -234,12 +234,27 @@ class Result:
 
 
 def _generic_stats(run, hist, stats):
-    if any(h.exits and h.exits[0][2] == 'cancelled'
-           for h in hist.nodes.values()):
+    def bump(key, n=1):
+        if n:
+            stats[key] = stats.get(key, 0) + n
+    n_raise = n_cancel = n_sdcancel = n_again = 0
+    for h in hist.nodes.values():
+        for _, _, kind in h.exits:
+            if kind == 'cancelled':
+                if h.is_sched:
+                    bump('fault:nested_run_cancelled')
+                else:
+                    n_cancel += 1
+            elif kind == 'exc' and not h.is_sched:
+                n_raise += 1
+        n_sdcancel += len(h.sd_cancel)
+        n_again += len(h.cancel_again)
+    bump('fault:job_raised', n_raise)
+    bump('fault:job_cancelled', n_cancel)
+    bump('fault:shutdown_handler_cancelled', n_sdcancel)
+    bump('fault:job_cancelled_again_during_cleanup', n_again)
+    if n_cancel:
         stats['job_cancelled'] = 1
-    if any(h.exits and h.exits[0][2] == 'exc' and not h.is_sched
-           for h in hist.nodes.values()):
-        stats['job_raised'] = 1
     for sid in hist.sched_ids():
         sr = hist.sr(sid)
         if sr.begin is None:
@@ -247,10 +262,9 @@ def _generic_stats(run, hist, stats):
         if any(sr.req[mh.nid] and mh.enters for mh in sr.mh):
             stats['dependent_started'] = 1
         if sr.verdict == 'fail':
-            stats['sched_failed:' + str(sr.cause)] = \
-                stats.get('sched_failed:' + str(sr.cause), 0) + 1
+            bump('fault:scheduler_failed_' + str(sr.cause))
         elif sr.verdict == 'success':
-            stats['sched_succeeded'] = stats.get('sched_succeeded', 0) + 1
+            bump('sched_succeeded')
     if run.outcome in ('deadlock', 'livelock', 'horizon'):
         stats['stuck:' + run.outcome] = 1
     if run.loop_stats['ties']:
@@ -274,7 +288,7 @@ def _nontrivial(prop, run, hist, stats):
             or (not S.is_sched(n) and n['outcome'] != 'ret')
             for n, _, _ in S.walk(run.spec))
     if prop == 'C04':
-        return any(k.startswith('sched_failed') for k in stats)
+        return any(k.startswith('fault:scheduler_failed') for k in stats)
     if prop == 'C11':
         return any(k.startswith('nested_cancelled_in') for k in stats)
     return True
@@ -347,8 +361,10 @@ def evaluate_case(prop, case):
 
 def _loop_stats(run, stats):
     ls = run.loop_stats
-    stats['tie_groups'] = stats.get('tie_groups', 0) + ls['ties']
-    stats['stalls_injected'] = stats.get('stalls_injected', 0) + ls['stalls']
+    stats['fault:same_instant_timer_groups_permuted'] = \
+        stats.get('fault:same_instant_timer_groups_permuted', 0) + ls['ties']
+    stats['fault:loop_stalls_injected'] = \
+        stats.get('fault:loop_stalls_injected', 0) + ls['stalls']
     stats['loop_iterations'] = stats.get('loop_iterations', 0) + \
         ls['iterations']
 
